@@ -70,8 +70,10 @@ def gen(rng, tier):
                         continue
                     yield {"family": "startup.%s.%s" % (name, activity), "backend": be, "phase": "startup", "script": name, "activity": activity, "rep": rep}
             for name in _shutdown_scripts():
-                for activity in ("inflight", "idle_conn", "none"):
+                for activity in ("inflight", "idle_conn", "none", "stuck"):
                     if tier == "quick" and activity == "none" and name != "complete":
+                        continue
+                    if activity == "stuck" and name not in ("complete", "shutdown_slow"):
                         continue
                     yield {"family": "shutdown.%s.%s" % (name, activity), "backend": be, "phase": "shutdown", "script": name, "activity": activity, "rep": rep}
             for k in range(2):
@@ -248,7 +250,7 @@ def run_one(case, tally):
             ok = h.wait_event(lambda e: e[2] == "app" and e[3] == "send." and True, 3.0)
             h.wait_ready()
             socks = []
-            if case["activity"] == "inflight":
+            if case["activity"] in ("inflight", "stuck"):
                 s = h.connect()
                 s.sendall(b"GET /slow HTTP/1.1\r\nHost: h\r\n\r\n")
                 socks.append(s)
@@ -265,7 +267,7 @@ def run_one(case, tally):
                 h.apps.trigger("finish")
                 data, eof = recv_all(socks[0], timeout=2.0)
                 tr.ev("client", "inflight-response", n=len(data), complete=data.endswith(b"slow"))
-            finished = h.wait_done(6.0)
+            finished = h.wait_done(6.0 if case["activity"] != "stuck" else 14.0)
             for s in socks:
                 s.close()
         else:  # state isolation
@@ -353,11 +355,18 @@ def run_one(case, tally):
         sd = [e for e in ev if e[2] == "app" and e[3] == "recv" and e[4]["inst"] == ls_inst and e[4]["msg"].get("type") == "lifespan.shutdown"]
         if len(sd) != 1:
             findings.append({"clause": "shutdown-once", "sig": "C14.shutdown/count-%d" % len(sd), "backend": be,
-                             "detail": "lifespan.shutdown delivered %d times (%s)" % (len(sd), case["family"])})
+                             "detail": "lifespan.shutdown delivered %d times (%s)%s" % (len(sd), case["family"],
+                                       "" if case["activity"] != "stuck" else "; a request handler outlasted the grace period (2.0 s), serve() %s within 14 s of the trigger" % (
+                                           "returned" if finished else "had not returned"))})
         else:
             trig = first(lambda e: e[2] == "client" and e[3] == "trigger-shutdown")
             if sd[0][0] < trig[0]:
                 findings.append({"clause": "shutdown-once", "sig": "C14.shutdown/before-trigger", "backend": be, "detail": "lifespan.shutdown before the trigger"})
+            if case["activity"] == "stuck":
+                # a handler that outlasts the grace period: "... or the graceful timeout has elapsed" - not before, and then it does come
+                if sd[0][1] - trig[1] < 2.0 - 0.05:
+                    findings.append({"clause": "shutdown-once", "sig": "C14.shutdown/before-drain", "backend": be,
+                                     "detail": "lifespan.shutdown at %.3f s after the trigger while a request was still in flight and the grace period (2.0 s) had not elapsed" % (sd[0][1] - trig[1])})
             if case["activity"] == "inflight":
                 ex = first(lambda e: e[2] == "app" and e[3] == "exit" and e[4]["inst"] != ls_inst)
                 t_trig = trig[1]
